@@ -1400,8 +1400,9 @@ func codecParallel(n, workers int, f func(i int)) {
 				if i >= n {
 					return
 				}
+				tok := guardBegin()
 				f(i)
-				guardProgress.Add(1)
+				guardEnd(tok)
 			}
 		}()
 	}
